@@ -345,3 +345,11 @@ Proof.
     cbn [skipn]. change (Z.of_N (uc_code []) =? 10) with false. change (uc_code [] =? 10)%N with false. xstep.
     fin_cur m4 g l n d fuel A4 Hok Hnx Hl.
 Qed.
+
+(* for the Examples: name the results of a call without writing the (large) memory down *)
+Definition getg (r : res (val * mem)) : nat := match r with Ok (VPtr g _, _) => g | _ => O end.
+Definition getm (r : res (val * mem)) : mem := match r with Ok (_, m) => m | Err _ => [] end.
+Definition retv (r : res (val * mem)) : res val := match r with Ok (v, _) => Ok v | Err e => Err e end.
+Definition is_okptr (r : res (val * mem)) : bool := match r with Ok (VPtr _ 0, _) => true | _ => false end.
+Lemma okptr_eq r : is_okptr r = true -> r = Ok (VPtr (getg r) 0, getm r).
+Proof. destruct r as [[[| |g o] m]|e]; cbn; try discriminate. destruct o; try discriminate. reflexivity. Qed.
